@@ -29,15 +29,16 @@ func (k *c18Key) admits(it *c18Item) bool {
 // c18Ref is the reference: "" when the statement's conditions for acceptance
 // all hold, otherwise the first reason (in snapd's pipeline order, which only
 // matters for the reason-agreement counters) for which the assertion MUST be
-// rejected. It reads only the scenario's own records: which key the assertion
+// rejected. It reads only the generator's own records (inDB: key id -> record of
+// the account-key currently in the database): which key the assertion
 // names, whose key that is, whether its account-key is in the database, the
 // key's window and constraints, and whether the generator attached a
 // signature that was not made over these bytes by that key.
 //
 // earliest=true is the SetEarliestTime mode, where the current time is only
 // known to be >= now: the key must not have expired by then.
-func c18Ref(sc *c18Scenario, it *c18Item, now time.Time, earliest bool) string {
-	k := sc.inDB[it.KeyID]
+func c18Ref(inDB map[string]*c18Key, it *c18Item, now time.Time, earliest bool) string {
+	k := inDB[it.KeyID]
 	switch {
 	case it.Authority == "": // self-signed type: only "the signature verifies over these bytes"
 		if it.BadSig {
